@@ -6,9 +6,9 @@
    - per operation for insert (spare capacity), and for the iterator protocol of Drain (any
      interleaving of front / back steps, drop at any point under any panics);
    the remaining operations are tied by the correspondence run (three-way with std::vec::Vec) only. *)
-From Coq Require Import ZArith List Bool Lia.
+From Coq Require Import ZArith List Bool Lia Permutation.
 From MV Require Import Ast Eval Scalar Machine Model Policy.
-From MV.Proofs Require Import Arith Logic Prim View OpsLocal Guards Grow CapHistory Drops DrainIt Core Refine Clone Append SplitOff Extend CloneSlice.
+From MV.Proofs Require Import Arith Logic Prim View OpsLocal Guards Grow CapHistory Drops DrainIt Core Refine Clone Append SplitOff Extend CloneSlice RetainSpec RetainAbs.
 Import ListNotations.
 Open Scope Z_scope.
 
@@ -259,3 +259,20 @@ Theorem C01_split_off_splits_the_list :
     (fun _ => True).
 Proof. exact split_off_middle. Qed.
 Print Assumptions C01_split_off_splits_the_list.
+
+(* retain(pred) against the list model: on a normal return the vector IS the sub-list the predicate
+   accepted, in order (rspec = the scripted List.filter; C17_retain_without_panics_is_filter), the
+   rejected elements are destroyed exactly once and nothing else changes; the panic cases are in the
+   post-condition too (C17 states them in words) *)
+Theorem C01_retain_is_filter :
+  forall cfg, cfg_ok cfg -> needs_drop cfg = true -> forall s v l sc,
+  vabs cfg s v l ->
+  let '(k, j, p, u) := rspec l sc in
+  post (retain cfg v sc s)
+    (fun _ s' => p = false /\ vabs cfg s' v k /\ (forall e, In e j -> ledger s' e = Dropped) /\
+                 (forall e, ~ In e j -> ledger s' e = ledger s e) /\ next_elem s' = next_elem s)
+    (fun s' => (p = true /\ exists l', Permutation l' l /\ vabs cfg s' v l' /\ ledger s' = ledger s) \/
+               (p = false /\ vabs cfg s' v k /\ (forall e, In e j -> ledger s' e = Dropped) /\
+                (forall e, ~ In e j -> ledger s' e = ledger s e))).
+Proof. exact retain_abs. Qed.
+Print Assumptions C01_retain_is_filter.
